@@ -68,6 +68,8 @@ use vcommon::{
 const ALPHA: [u8; 5] = [0x00, 0x01, 0x7F, 0xFE, 0xFF];
 /// length of the fixed RocksDB prefix extractor of the "prefixed" columns
 const PREFIX_LEN: usize = 32;
+/// see `Params::short_forward_prefix`
+const SHORT_FORWARD_PREFIX_DEFAULT: u8 = 2;
 
 /// A column as the (description-independent) workload sees it.
 #[derive(Clone, Copy, Debug, PartialEq, Eq)]
@@ -565,6 +567,14 @@ struct Params {
     /// with an fsync per column family): thorough = 2 rounds over all backends,
     /// quick = 1 round over the plain RocksDb and one history-keeping backend
     reopen_rounds: usize,
+    /// also run (but never judge) the excluded forward short-prefix-only shape
+    probe_undefined: bool,
+    /// forward prefix-only queries with a prefix shorter than the extractor on
+    /// extractor columns: 0 = not executed (undefined / crashing before the
+    /// repair of `_iter_store`), 1 = judged for non-empty prefixes, 2 = judged
+    short_forward_prefix: u8,
+    /// include the empty prefix in that probe (crashes the process)
+    probe_undefined_empty: bool,
 }
 
 fn params(thorough: bool) -> Params {
@@ -576,6 +586,9 @@ fn params(thorough: bool) -> Params {
             family_percent: 100,
             all_policies: true,
             reopen_rounds: 2,
+            probe_undefined: false,
+            probe_undefined_empty: false,
+            short_forward_prefix: SHORT_FORWARD_PREFIX_DEFAULT,
         }
     } else {
         Params {
@@ -585,6 +598,9 @@ fn params(thorough: bool) -> Params {
             family_percent: 100,
             all_policies: false,
             reopen_rounds: 1,
+            probe_undefined: false,
+            probe_undefined_empty: false,
+            short_forward_prefix: SHORT_FORWARD_PREFIX_DEFAULT,
         }
     }
 }
@@ -719,6 +735,8 @@ struct Query {
     dir: IterDirection,
     /// ask every backend through `iter_store` and `iter_store_keys`
     both_apis: bool,
+    /// only observed, never judged (`--probe-undefined 1`)
+    info_only: bool,
 }
 
 fn mode_of(q: &Query) -> &'static str {
@@ -740,6 +758,7 @@ fn gen_queries(rng: &mut StdRng, ctx: &mut Ctx, col: Col, colmap: &ColMap, p: &P
             start: None,
             dir: d,
             both_apis: false,
+            info_only: false,
         });
     }
     let keys = ks.keys(col);
@@ -753,12 +772,14 @@ fn gen_queries(rng: &mut StdRng, ctx: &mut Ctx, col: Col, colmap: &ColMap, p: &P
                 start: None,
                 dir: d,
                 both_apis: false,
+            info_only: false,
             });
             qs.push(Query {
                 prefix: None,
                 start: Some(k.clone()),
                 dir: d,
                 both_apis: false,
+            info_only: false,
             });
         }
     }
@@ -770,22 +791,29 @@ fn gen_queries(rng: &mut StdRng, ctx: &mut Ctx, col: Col, colmap: &ColMap, p: &P
             // FixedPrefixTransform::Transform then reads past the key): the answer
             // is not defined, so this one shape is not executed. The reverse
             // direction (total-order seek) is judged.
-            ctx.local.count("excluded.forward_prefix_only_shorter_than_extractor");
-            qs.push(Query {
-                prefix: Some(sp.clone()),
-                start: None,
-                dir: IterDirection::Reverse,
-                both_apis: true,
-            });
-            // start keys shorter than the extractor (total-order seek)
-            for d in both {
+            let judged = p.short_forward_prefix == 2 || (p.short_forward_prefix == 1 && !sp.is_empty());
+            if judged {
                 qs.push(Query {
-                    prefix: None,
-                    start: Some(sp.clone()),
-                    dir: d,
-                    both_apis: false,
+                    prefix: Some(sp.clone()),
+                    start: None,
+                    dir: IterDirection::Forward,
+                    both_apis: true,
+                    info_only: false,
+                });
+                continue_reverse(&mut qs, sp, both);
+                continue;
+            }
+            ctx.local.count("excluded.forward_prefix_only_shorter_than_extractor");
+            if p.probe_undefined && (!sp.is_empty() || p.probe_undefined_empty) {
+                qs.push(Query {
+                    prefix: Some(sp.clone()),
+                    start: None,
+                    dir: IterDirection::Forward,
+                    both_apis: true,
+                    info_only: true,
                 });
             }
+            continue_reverse(&mut qs, sp, both);
         }
         // (short prefix, start): the prefix is shorter than the extractor, the
         // start key begins with it. With a start of >= 32 bytes the seek key is
@@ -820,6 +848,7 @@ fn gen_queries(rng: &mut StdRng, ctx: &mut Ctx, col: Col, colmap: &ColMap, p: &P
                 start: Some(start),
                 dir: d,
                 both_apis: true,
+            info_only: false,
             });
         }
     }
@@ -853,9 +882,31 @@ fn gen_queries(rng: &mut StdRng, ctx: &mut Ctx, col: Col, colmap: &ColMap, p: &P
             start: Some(start),
             dir: d,
             both_apis: false,
+            info_only: false,
         });
     }
     qs
+}
+
+/// the always-judged companions of a short prefix on an extractor column:
+/// reverse prefix-only and start-only in both directions
+fn continue_reverse(qs: &mut Vec<Query>, sp: &Bytes, both: [IterDirection; 2]) {
+    qs.push(Query {
+        prefix: Some(sp.clone()),
+        start: None,
+        dir: IterDirection::Reverse,
+        both_apis: true,
+        info_only: false,
+    });
+    for d in both {
+        qs.push(Query {
+            prefix: None,
+            start: Some(sp.clone()),
+            dir: d,
+            both_apis: false,
+            info_only: false,
+        });
+    }
 }
 
 fn classify_iter_mismatch(
@@ -904,6 +955,19 @@ fn classify_iter_mismatch(
     {
         return format!(
             "prefix_start_iter_misses_entries_outside_seek_key_extractor_prefix backend={} data=sst_after_reopen",
+            b.fam
+        );
+    }
+    if b.fam != "memory"
+        && col.prefixed
+        && mode == "prefix"
+        && q.dir == IterDirection::Forward
+        && q.prefix.as_ref().map(|p| p.len() < PREFIX_LEN).unwrap_or(false)
+        && observed_keys.is_empty()
+        && !expected_keys.is_empty()
+    {
+        return format!(
+            "forward_prefix_iter_empty_for_prefix_shorter_than_extractor backend={}",
             b.fam
         );
     }
@@ -987,6 +1051,15 @@ fn run_queries(rng: &mut StdRng, ctx: &mut Ctx, backends: &[Backend], model: &Mo
         if prefixed {
             ctx.local.count("queries.on_prefix_extractor_column");
         }
+        if prefixed
+            && mode == "prefix"
+            && q.dir == IterDirection::Forward
+            && q.prefix.as_ref().map(|p| p.len() < PREFIX_LEN).unwrap_or(false)
+            && !q.info_only
+            && !expected.is_empty()
+        {
+            ctx.local.count("queries.short_prefix_only.forward.nonempty");
+        }
         let shape = short_prefix_shape(col, q);
         if let Some(shape) = shape {
             ctx.local.count(&format!(
@@ -1010,6 +1083,19 @@ fn run_queries(rng: &mut StdRng, ctx: &mut Ctx, backends: &[Backend], model: &Mo
             }
         }
         let use_keys_api = chance(rng, 50);
+        if q.info_only {
+            for b in backends.iter().filter(|b| b.alive && b.fam != "memory") {
+                let k = match b.kv().iter_keys(col, q.prefix.as_deref(), q.start.as_deref(), q.dir) {
+                    Ok(Ok(k)) if k == expected_keys => "as_model",
+                    Ok(Ok(k)) if k.is_empty() => "empty_although_entries_exist",
+                    Ok(Ok(_)) => "other_mismatch",
+                    _ => "error_or_panic",
+                };
+                ctx.local
+                    .count(&format!("info.forward_prefix_only_shorter_than_extractor.{}.{k}", b.fam));
+            }
+            continue;
+        }
         for b in backends.iter().filter(|b| b.alive) {
             let s = b.kv();
             // memory: both APIs; RocksDB-based: one of them per query
@@ -1155,6 +1241,7 @@ fn check_changes_iterator_on(rng: &mut StdRng, ctx: &mut Ctx, commit: &Commit, c
                 start: None,
                 dir: d,
                 both_apis: true,
+            info_only: false,
             });
         }
         let candidates: Vec<Bytes> = commit
@@ -1172,18 +1259,21 @@ fn check_changes_iterator_on(rng: &mut StdRng, ctx: &mut Ctx, commit: &Commit, c
                     start: None,
                     dir: d,
                     both_apis: true,
+            info_only: false,
                 },
                 1 => Query {
                     prefix: None,
                     start: Some(k.clone()),
                     dir: d,
                     both_apis: true,
+            info_only: false,
                 },
                 _ => Query {
                     prefix: Some(k[..cut].to_vec()),
                     start: Some(k.clone()),
                     dir: d,
                     both_apis: true,
+            info_only: false,
                 },
             };
             queries.push(q);
@@ -1715,7 +1805,12 @@ pub fn run(args: &Args, report: &Report) {
         finish(args, report, selftest, true);
         return;
     }
-    let p = params(args.is_thorough());
+    let mut p = params(args.is_thorough());
+    p.probe_undefined = args.extra.contains_key("probe-undefined");
+    if let Some(v) = args.extra.get("short-forward-prefix").and_then(|v| v.parse().ok()) {
+        p.short_forward_prefix = v;
+    }
+    p.probe_undefined_empty = args.extra.get("probe-undefined").map(|v| v == "2").unwrap_or(false);
     let shards: usize = args.extra.get("shards").and_then(|s| s.parse().ok()).unwrap_or(16);
     let per_shard: u64 = args
         .extra
@@ -1758,6 +1853,7 @@ fn finish(args: &Args, report: &Report, selftest: u32, replay: bool) {
         report.require("queries.short_prefix_long_start.forward.spanning_heads", t(5_000, 25_000));
         report.require("queries.short_prefix_long_start.reverse.spanning_heads", t(5_000, 25_000));
         report.require("queries.short_prefix_short_start.forward.nonempty", t(500, 2_500));
+        report.require("queries.short_prefix_only.forward.nonempty", t(1_000, 5_000));
     }
     if selftest > 0 && report.violation_count() == 0 {
         report.inconclusive(format!("selftest {selftest}: the perturbation was not detected"));
@@ -1770,7 +1866,7 @@ fn finish(args: &Args, report: &Report, selftest: u32, replay: bool) {
         &[
             "commits containing the same (column,key) in two list elements are outside the compared domain (backends legitimately reject them differently); generated as the last commit of ~6% of the histories and only recorded",
             "queries with prefix and start where start does not begin with prefix are outside the documented contract and excluded (counted)",
-            "on columns with a RocksDB fixed-prefix extractor (32 bytes) keys have at least 32 bytes; the only shape not executed there is the forward prefix-ONLY query with a prefix shorter than 32 bytes (fuel-core seeks with prefix_same_as_start on an out-of-domain key, RocksDB reads past the key: undefined answer, counted as excluded.forward_prefix_only_shorter_than_extractor). Short prefixes are judged in reverse prefix-only queries and, in both directions and through both APIs, together with a start key (>= 32 bytes and shorter)",
+            "on columns with a RocksDB fixed-prefix extractor (32 bytes) keys have at least 32 bytes; prefixes shorter than 32 bytes (including the empty one) are judged there in every shape: prefix-only forward and reverse, and together with a start key (>= 32 bytes and shorter), through both APIs (the forward prefix-only shape can be switched off with --short-forward-prefix 0: before its repair it read out of bounds inside RocksDB)",
             "RocksDB opened with DatabaseConfig::config_for_tests (lazy columns), with and without a 6 MiB cache",
             "a panic inside commit_changes / iter_store / get of a backend is reported as a violation (the backend did not deliver the contents the others hold)",
         ],
